@@ -157,3 +157,43 @@ def fold_copy_dst(ck, P, R="GUARD/fold-copy-dst"):
                       "longer than any source slice; the pclmulqdq kernel asserts dst.len() == src.len() and the panic aborts inflate()"
                       % (f.path.replace(Z, ""), mir.fmt(a[1], f)[:80]), where(f, c.line))
     ck.floor(R, n, 3)
+
+
+def c_truthiness(ck, P, R="ATOM/c-truthiness"):
+    """an `int` parameter of an exported C function that becomes a `bool` argument of a library function is converted by C's
+    truth rule (`!= 0`): zlib's `if (check)` is taken for every non-zero value, not only for 1"""
+    n = 0
+    for f in sorted(P.fns.values(), key=lambda f: f.path):
+        if not (f.crate == "libz_rs_sys" and f.is_extern_c):
+            continue
+        for c in f.live_calls():
+            if not c.callee or not c.callee.startswith(Z):
+                continue
+            g = P.fns.get(c.callee)
+            for i, a in enumerate(f.call_args(c)):
+                if g is not None and i + 1 <= g.arg_count and g.locals[i + 1]["ty"] != "bool":
+                    continue
+                e = mir.strip_casts(a)
+                neg = False
+                while e[0] == "un" and e[1] == "Not":
+                    neg = not neg
+                    e = mir.strip_casts(e[2])
+                if not (e[0] == "bin" and e[1] in ("Ne", "Eq", "Gt", "Lt", "Ge", "Le")):
+                    continue
+                x, y = mir.strip_casts(e[2]), mir.strip_casts(e[3])
+                if y[0] in ("p", "v") and x[0] == "c":
+                    x, y = y, x
+                if not (x[0] in ("p", "v") and 1 <= x[1] <= f.arg_count and f.locals[x[1]]["ty"] in ("i32", "core::ffi::c_int", "c_int")):
+                    continue
+                n += 1
+                ck.use_fn(f)
+                v = f.const_of(y)
+                op = e[1]
+                if neg:
+                    op = {"Ne": "Eq", "Eq": "Ne"}.get(op, "other")
+                ck.decide(op == "Ne" and v == 0, R, "%s:%s" % (f.path.split("::")[-1], f.local_name(x[1]) or "arg%d" % x[1]),
+                          "converted with `!= 0`",
+                          "%s turns its int parameter `%s` into the bool argument of %s with `%s`: C callers pass any non-zero value for "
+                          "true, and zlib-ng tests `if (%s)`" % (f.path, f.local_name(x[1]), c.callee.replace(Z, ""), mir.fmt(a, f)[:40],
+                                                                 f.local_name(x[1])), where(f, c.line))
+    ck.floor(R, n, 1)
